@@ -3,7 +3,7 @@ from . import _hub
 
 CONFIG = dict(
     modules=["SigModel.Props.C03", "SigModel.Props.C05"],
-    theorems=["SigModel.Hub.reachable_inv", "SigModel.Hub.C03_isolation", "SigModel.Hub.C03_isolation_reachable", "SigModel.Hub.C03_state_isolation", "SigModel.Hub.C03_state_isolation_reachable", "SigModel.Hub.C03_facts", "SigModel.Hub.C03_subjects_per_backend", "SigModel.Hub.C03_rooms_distinct", "SigModel.Hub.C03_foreign_session_unreachable", "SigModel.Hub.C03_room_session_lookup", "SigModel.Hub.C03_join_does_not_kick_foreign", "SigModel.Hub.C05_routing", "SigModel.Hub.C05_addressed_once_not_sender"],
+    theorems=["SigModel.Hub.reachable_inv", "SigModel.Hub.C03_isolation", "SigModel.Hub.C03_isolation_reachable", "SigModel.Hub.C03_state_isolation", "SigModel.Hub.C03_state_isolation_reachable", "SigModel.Hub.C03_facts", "SigModel.Hub.C03_same_call_is_per_backend", "SigModel.Hub.C03_subjects_per_backend", "SigModel.Hub.C03_rooms_distinct", "SigModel.Hub.C03_foreign_session_unreachable", "SigModel.Hub.C03_room_session_lookup", "SigModel.Hub.C03_join_does_not_kick_foreign", "SigModel.Hub.C05_routing", "SigModel.Hub.C05_addressed_once_not_sender"],
     generated=["Hub"],
     harness=_hub.HARNESS,
     stats=_hub.stats,
@@ -15,7 +15,7 @@ CONFIG = dict(
 )
 
 MANIFEST = dict(
-    text="Lean 4 theorem C03_isolation over the hub model: in every state satisfying the hub invariant (hence after every op sequence, C03_isolation_reachable) and for every operation that acts on behalf of a backend b — hello, resume, bye, join/leave, message and control message with any recipient, virtual-session requests, in-call updates and all eight kinds of room API call, with any ids, known or guessed — every message written to any connection in that step, the follow-up closing of kicked/disinvited sessions included, goes to a session of b (each output is tagged with the backend of the session owning the connection when it is written), and (C03_state_isolation) the record of every session of another backend — room, Nextcloud session id, permissions, queued messages, connection, in-call flags — is after the step exactly what it was before. Supporting theorems: all listeners of a room/user bus subject and all members of a room belong to the subject's backend (even with coinciding room ids, user ids and Nextcloud session ids), rooms of the same id on two backends are disjoint, a message or control message addressed to a foreign session id is dropped without effect, room-session-id lookups and the reconnect kick are confined to the caller's backend, and (C05_routing) every message is written exactly to the addressed sessions. The same-backend guards are facts regenerated from the source (removing one breaks a proof). Differential hub run with 2-3 backends and coincidence-biased histories; half of the histories start with a scripted opening (a virtual session addressed from another backend, the same Nextcloud session id and room name on two backends followed by API calls naming it). The judge checks every delivery of every step against the backend of the acting session / API call, and that no step done on behalf of one backend changes what the server holds for another (sessions with room, permissions and queue, rooms, members, call, listeners, counts).",
+    text="Lean 4 theorem C03_isolation over the hub model: in every state satisfying the hub invariant (hence after every op sequence, C03_isolation_reachable) and for every operation that acts on behalf of a backend b — hello, resume, bye, join/leave, message and control message with any recipient, virtual-session requests, in-call updates and all eight kinds of room API call, with any ids, known or guessed — every message written to any connection in that step, the follow-up closing of kicked/disinvited sessions included, goes to a session of b (each output is tagged with the backend of the session owning the connection when it is written), and (C03_state_isolation) the record of every session of another backend — room, Nextcloud session id, permissions, queued messages, connection, in-call flags — is after the step exactly what it was before. Supporting theorems: all listeners of a room/user bus subject and all members of a room belong to the subject's backend (even with coinciding room ids, user ids and Nextcloud session ids), rooms of the same id on two backends are disjoint, a message or control message addressed to a foreign session id is dropped without effect, room-session-id lookups and the reconnect kick are confined to the caller's backend, and (C05_routing) every message is written exactly to the addressed sessions. The same-backend guards are facts regenerated from the source (removing one breaks a proof). Media offers are outside the hub model (no media server): that a requestoffer — whose answer is delivered as a message of the publishing session — is accepted only for a publisher in the same room of the same backend is the regenerated fact C03_same_call_is_per_backend (Hub.isInSameCall refuses unless Room.IsEqual, which compares room id and backend id); the gate itself is proved in C08. Differential hub run with 2-3 backends and coincidence-biased histories; half of the histories start with a scripted opening (a virtual session addressed from another backend, the same Nextcloud session id and room name on two backends followed by API calls naming it). The judge checks every delivery of every step against the backend of the acting session / API call, and that no step done on behalf of one backend changes what the server holds for another (sessions with room, permissions and queue, rooms, members, call, listeners, counts).",
     note="Synchronous routing layer: single hub, loopback bus, quiescence between ops; no gRPC peers, MCU or federation. Trusted: Lean kernel, extractor, harness (real websockets, fake Nextcloud backend) and comparison. Output isolation and isolation of the session records are proved for every operation of the model; rooms, listener lists and counts of other backends are covered by the invariant (they only mention sessions of their backend) and judged on real traces (cross-backend-state-change). Clustered delivery (a remote hub cannot check the sender's backend on a bare session subject) is not modelled.",
     technique="Lean 4 proof (routing refinement over the hub model) + differential correspondence",
 )
